@@ -1,15 +1,27 @@
 package main
 
 import (
+	"runtime/pprof"
 	"flag"
 	"fmt"
 	"os"
 	"strings"
+	"time"
 
 	"govc/vc"
 )
 
 func main() {
+	if pf := os.Getenv("GOVC_PROF"); pf != "" {
+		f, _ := os.Create(pf)
+		pprof.StartCPUProfile(f)
+		go func() {
+			time.Sleep(40 * time.Second)
+			pprof.StopCPUProfile()
+			f.Close()
+			os.Exit(3)
+		}()
+	}
 	if len(os.Args) < 2 {
 		fmt.Fprintln(os.Stderr, "usage: govc fn <key>... | check <id> <tier>")
 		os.Exit(2)
@@ -39,12 +51,24 @@ func cmdFn(args []string) {
 		os.Exit(2)
 	}
 	s.TimeoutS = *timeout
+	if os.Getenv("GOVC_SPLITS") != "" {
+		vc.DebugSplits = map[string]int{}
+	}
+	if mp := os.Getenv("GOVC_MAXPATHS"); mp != "" {
+		fmt.Sscanf(mp, "%d", &s.Ex.MaxPaths)
+	}
 	var results []*vc.FuncResult
 	for _, k := range fs.Args() {
 		if !strings.HasPrefix(k, vc.ModulePath) {
 			k = vc.ModulePath + "/" + k
 		}
 		results = append(results, s.Generate(k)...)
+	}
+	if vc.DebugSplits != nil {
+		for k, v := range vc.DebugSplits {
+			fmt.Printf("SPLIT %6d %s\n", v, k)
+		}
+		return
 	}
 	s.DischargeAll(results, "fn")
 	for _, r := range results {
